@@ -35,7 +35,7 @@ STATE_MEASURE = "(message type, encoding per hop, frame, scale, cov-frame class,
 PROBES = [
     "hop_compared", "kvn_xml_compared", "redump_compared", "config_default_used", "builtin_default_used", "creation_date_from_virtual_clock",
     "cov_in_local_frame", "cov_in_other_frame", "man_qsw", "man_tnw", "man_inertial", "man_continuous", "single_point_oem", "single_cov_oem", "multi_ephem_oem",
-    "omm_redumped", "tdm_two_paths", "user_defined_fields", "absent_name", "stored_example_message", "body_centred_frame", "reader_read_another_message_first", "dump_keyword_arguments", "object_with_frame_history_written",
+    "omm_redumped", "tdm_two_paths", "user_defined_fields", "absent_name", "stored_example_message", "body_centred_frame", "reader_read_another_message_first", "reader_read_a_message_of_another_object_first", "dump_keyword_arguments", "object_with_frame_history_written",
 ]
 REAL_VS_STUB = "real: beyond.io.ccsds writers and readers (lxml), StateVector/Orbit/Ephem/Cov/maneuvers/MeasureSet, Tle; stub: the file objects handed to dump()/load() (simulated disk), the datetime class read by Date.now (virtual wall clock); model: canonical description of the object compared at the written precision"
 ASSUMPTIONS = [
@@ -176,7 +176,28 @@ def gen_plan(rng, tier, i):
     decoy = None
     if kind in ("opm", "oem", "tdm") and rng.random() < 0.4:
         decoy = rng.choice([sc for sc in ["UTC", "TAI", "TT", "GPS"] if sc != spec["scale"]])
-    return {"knobs": {"spec": spec, "real_eop": rng.random() < 0.3, "decoy_scale": decoy}, "ops": hops}
+    real_eop = rng.random() < 0.3
+    import random
+
+    child = random.Random("c13-child:" + repr(sorted((k_, repr(v_)) for k_, v_ in spec.items())))  # choices added after the first version: own generator, earlier plans keep their draws
+    decoy_other = False
+    if kind in ("opm", "omm") and child.random() < 0.35:
+        # every reader first reads a message of another object (other name, other user-defined fields)
+        decoy_other = True
+        if kind == "opm" and decoy is None and child.random() < 0.5:
+            decoy = spec["scale"]
+    if kind == "oem" and len(spec["ephems"]) > 1 and child.random() < 0.7:
+        # a list of ephemerides of different objects (chaser / target): each segment keeps its own identity
+        for q, es in enumerate(spec["ephems"][1:]):
+            es["name"] = child.choice(["CHASER", "TARGET 2", "DEB [B]"])
+            es["cospar_id"] = child.choice(["2020-001B", "1999-025DZ"])
+        if child.random() < 0.4:
+            spec["ephems"][0]["anonymous"] = True  # the first one carries no name at all
+    if kind == "opm":
+        for m_ in spec.get("mans", []):
+            if m_["type"] == "cont" and child.random() < 0.35:
+                m_["dur_s"] = child.choice([0.04, 0.5, 0.001, 86400.0, 172800.0, 86400.5, 3.25])  # shorter than a second, whole days
+    return {"knobs": {"spec": spec, "real_eop": real_eop, "decoy_scale": decoy, "decoy_other": decoy_other}, "ops": hops}
 
 
 # --------------------------------------------------------------------- world
@@ -272,7 +293,10 @@ def build(node, spec, ctx):
             for idx, how in zip(es["cov_idx"], es["cov_frames"]):
                 attach_cov(node, pts[idx], how, es["cov_seed"] + idx)
             eph = node.Ephem(pts, method=es["method"], order=es["order"])
-            if "name" in spec:
+            if es.get("name"):
+                eph.name = es["name"]
+                eph.cospar_id = es["cospar_id"]
+            elif "name" in spec and not es.get("anonymous"):
                 eph.name = spec["name"]
                 eph.cospar_id = spec["cospar_id"]
             out.append(eph)
@@ -649,10 +673,18 @@ def _run_plan(plan, ctx, w):
             original = describe(obj, kind)
     _probe_features(ctx, spec)
     decoy_scale = plan["knobs"].get("decoy_scale")
-    if decoy_scale and kind in ("opm", "oem", "tdm"):
-        # the same clock readings under another time-scale label, written first: every reader of this run reads it before the real message
+    decoy_other = bool(plan["knobs"].get("decoy_other"))
+    if (decoy_scale and kind in ("opm", "oem", "tdm")) or (decoy_other and kind in ("opm", "omm")):
+        # the same clock readings under another time-scale label (and / or another object: other name, other user-defined fields),
+        # written first: every reader of this run reads it before the real message
+        dspec = dict(spec)
+        if decoy_scale and "scale" in spec:
+            dspec["scale"] = decoy_scale
+        if decoy_other:
+            dspec.update(name="DECOY SAT", cospar_id="2001-001Z", user={"DECOY_ONLY": "yes", "FOO": "decoy"})
+            ctx.probe("reader_read_a_message_of_another_object_first")
         with node:
-            dobj = build(node, dict(spec, scale=decoy_scale), ctx)
+            dobj = build(node, dspec, ctx)
             _, dexc = w.write(node, dobj, "arg:" + rng_free_choice(plan), "/msg/decoy")
         if dexc is None:
             w.decoy = "/msg/decoy"
